@@ -166,6 +166,9 @@ func Run(o Opts) int {
 	}
 
 	kernelDir := "/repo/kernel"
+	if d := os.Getenv("VERIF_KERNEL_DIR"); d != "" {
+		kernelDir = d
+	}
 	for _, b := range bmcs {
 		s, err := newSystem(kernelDir, b.T, b.M)
 		if err != nil {
@@ -312,6 +315,23 @@ func Run(o Opts) int {
 				samples = append(samples, map[string]interface{}{"query": name, "pre_state": pre})
 			default:
 				inconclusive = append(inconclusive, name+": solver gave no answer")
+			}
+		}
+		// a release really frees the lock: holder releases, then another task's TryToAcquire succeeds
+		{
+			s1, _ := s.step(st, 0)
+			s2, _ := s.step(s1, 1)
+			hyp := []*smt.Term{s.inv(st), nz, c.Eq(st.th[0].pc, c.Const(8, pRel)), c.Eq(st.th[1].pc, c.Const(8, pIdle)), c.Cmp("bvult", st.th[1].k, c.Const(8, 2)), c.Not(s.opIsAcquire(1, st.th[1].k))}
+			r, _ := decide(fmt.Sprintf("Q2-release-frees-lock-T%d", T), append(hyp, c.Not(c.Eq(s2.th[1].pc, c.Const(8, pCS1)))), nil)
+			if r == "sat" {
+				violations++
+				path := filepath.Join(outDir, "replay", fmt.Sprintf("Q2-release-frees-lock-T%d.json", T))
+				writeJSON(path, map[string]interface{}{"meaning": "after the holder's Release another task's TryToAcquire still fails: the lock cannot be taken again"})
+				violationLines = append(violationLines, fmt.Sprintf("VIOLATION property=C08 replay=%s", path))
+			} else if r != "unsat" {
+				inconclusive = append(inconclusive, "release-frees-lock query: no answer")
+			} else {
+				states++
 			}
 		}
 		// after a release the lock can be taken again: from any invariant state with the lock free, TryToAcquire succeeds
